@@ -307,6 +307,21 @@ class SymEval:
                 p = p["sub"]
             if p.get("k") == "Variant" and p.get("adt") == OPTION and p.get("variant") == "Some":
                 return self.ev_match(fake, env)
+        if cond.get("k") == "Let" and e.get("else") is not None and self.uninterp:
+            # `if let <pattern over the shape> = dims { A } else { B }`: which branch runs depends on the rank / dimensions: both are possible values
+            try:
+                sv_ = self.ev(cond["e"], env)
+            except (Abstain, Unsupported):
+                sv_ = ("unk", "")
+            pk = cond["pat"]
+            while isinstance(pk, dict) and pk.get("k") in ("Deref", "DerefPattern"):
+                pk = pk["sub"]
+            if sv_[0] in ("dims", "vecA", "opaque") and isinstance(pk, dict) and pk.get("k") in ("Slice", "Array"):
+                e2 = Env(env)
+                for q in (pk.get("prefix") or []) + (pk.get("suffix") or []) + ([pk["slice"]] if isinstance(pk.get("slice"), dict) else []):
+                    for v_, _, _, _ in F.pat_bindings(q):
+                        e2[v_] = ("unk", "bound by a slice pattern")
+                return self.mk_alt([self.ev(e["then"], e2), self.ev(e["else"], env)])
         if cond.get("k") == "Let" or e.get("else") is None:
             return ("unk", "if-let / if without else")
         # a comparison of two constants (a parameter this evaluation fixed to a number against a literal) is decided
@@ -580,6 +595,11 @@ class SymEval:
                     for xx in self.alts(x):
                         if xx[0] in ("s", "v", "arr") and not isinstance(xx[1], PW):
                             self.divisors.append(xx[1])
+                elif pc is None and dict(pl).get("", 0) < 0:
+                    # `x^(p - 1)`: negative for the parameter values below the constant: a division by x for those
+                    for xx in self.alts(x):
+                        if xx[0] in ("s", "v", "arr") and not isinstance(xx[1], PW):
+                            self.param_divisors = getattr(self, "param_divisors", []) + [(xx[1], pl)]
                 return self.map1(x, lambda v: v.powlf(pl))
             if m == "abs":
                 # |x|: an opaque function of its argument (never equal to the argument itself)
